@@ -621,36 +621,51 @@ func cmdRun(args []string) int {
 			if k%5 != 0 || seenJ[j.String()] {
 				continue
 			}
-			if pr := perJobRes[j.String()]; pr[0] == 0 || pr[0] > 15000 {
+			if pr := perJobRes[j.String()]; pr[0] == 0 || pr[0] > 2000 {
 				continue
 			}
 			seenJ[j.String()] = true
 			sample = append(sample, j)
-			if len(sample) >= 24 {
+			if len(sample) >= 12 {
 				break
 			}
 		}
+		// the two other solvers run side by side
+		var cmu sync.Mutex
+		var cwg sync.WaitGroup
 		for _, kind := range []string{"z3-new", "cvc5"} {
-			in, err := NewInterp(p, kind, timeoutMs)
-			if err != nil {
-				inconcl = append(inconcl, "cross-solver "+kind+": "+err.Error())
-				crossAgree = false
-				continue
-			}
-			in.useDomains = false // every feasibility query goes to the solver under test
-			for _, j := range sample {
-				setup, run := findHarness(p, j.Harness)
-				res := in.Explore(j, setup, run, lim, nil, nil, isKnown)
-				want := perJobRes[j.String()]
-				crossJobs++
-				if res.Paths != want[0] || len(res.Violations) != want[1] || len(res.Inconcl) > 0 {
+			kind := kind
+			cwg.Add(1)
+			go func() {
+				defer cwg.Done()
+				in, err := NewInterp(p, kind, timeoutMs)
+				if err != nil {
+					cmu.Lock()
+					inconcl = append(inconcl, "cross-solver "+kind+": "+err.Error())
 					crossAgree = false
-					inconcl = append(inconcl, fmt.Sprintf("cross-solver %s disagrees on %s: paths %d vs %d, violations %d vs %d, inconclusive %d", kind, j, res.Paths, want[0], len(res.Violations), want[1], len(res.Inconcl)))
+					cmu.Unlock()
+					return
 				}
-			}
-			queries += in.solver.Queries
-			in.solver.Close()
+				in.useDomains = false // every feasibility query goes to the solver under test
+				for _, j := range sample {
+					setup, run := findHarness(p, j.Harness)
+					res := in.Explore(j, setup, run, lim, nil, nil, isKnown)
+					want := perJobRes[j.String()]
+					cmu.Lock()
+					crossJobs++
+					if res.Paths != want[0] || len(res.Violations) != want[1] || len(res.Inconcl) > 0 {
+						crossAgree = false
+						inconcl = append(inconcl, fmt.Sprintf("cross-solver %s disagrees on %s: paths %d vs %d, violations %d vs %d, inconclusive %d", kind, j, res.Paths, want[0], len(res.Violations), want[1], len(res.Inconcl)))
+					}
+					cmu.Unlock()
+				}
+				cmu.Lock()
+				queries += in.solver.Queries
+				cmu.Unlock()
+				in.solver.Close()
+			}()
 		}
+		cwg.Wait()
 	}
 	if unknowns > 0 {
 		inconcl = append(inconcl, fmt.Sprintf("%d solver unknown/error answers", unknowns))
